@@ -68,6 +68,8 @@ func (in *Interp) buildInt(s *GenSpec) *rapid.Generator[int] {
 		return rapid.Map(rapid.Uint8(), func(u uint8) int { return int(u) })
 	case "filter_even":
 		return in.buildInt(s.Sub).Filter(func(v int) bool { return v%2 == 0 })
+	case "filter_never":
+		return rapid.IntRange(0, 9).Filter(func(v int) bool { return false }) // always gives up: the test case is invalid
 	case "map_x2":
 		return rapid.Map(in.buildInt(s.Sub), func(v int) int { return v * 2 })
 	case "oneof":
@@ -531,6 +533,12 @@ func (in *Interp) fail(t *rapid.T, inv *Invocation, k FailKind, site int, where 
 	msg := fmt.Sprintf("S%d/%v:%s", site, k, in.envText())
 	seq := in.w.ev(EvSignal, inv.Idx, k.String(), where, site, k.Fatal())
 	inv.Signals = append(inv.Signals, SignalRec{k, site, where, k.Fatal(), msg, seq})
+	for _, st := range in.w.stack {
+		if st != inv {
+			// a signal on the T of a Custom generator function is a signal of the enclosing invocation too
+			st.Signals = append(st.Signals, SignalRec{k, site, where, k.Fatal(), msg, seq})
+		}
+	}
 	if k.Fatal() {
 		for _, st := range in.w.stack {
 			st.unwinding, st.unwindWhere = "fatal", where
